@@ -117,6 +117,43 @@ func VC_C13_method_and_interface_mistakes() {
 	verifReached("C13.method-iface")
 }
 
+// the symbol lookup itself is the subject of C10: here every name is absent
+//
+//verif:stub github.com/tencent/goom/internal/unexports2.FindFuncByName
+func vC13FindFuncByName(name string) (uintptr, error) {
+	return 0, erro.NewFuncNotFoundError(name)
+}
+
+//verif:stub github.com/tencent/goom/internal/unexports2.FindVarByName
+func vC13FindVarByName(name string) (uintptr, error) {
+	return 0, errors.New(name + ": variable symbol not found")
+}
+
+// VC_C13_unknown_names: unknown function, method and variable symbol names are rejected
+// by a panic at configuration time and nothing is written.
+func VC_C13_unknown_names() {
+	vEnv()
+	vPristine(vC13F)
+	vPristine(vC13G)
+	b := Create()
+	cb := func(a int, s string) (int, error) { return 0, nil }
+	switch verifChoice("case", 6) {
+	case 0:
+		vRejected(func() { b.ExportFunc("noSuchFunc").Apply(cb) }, "C13.names.unknown-func")
+	case 1:
+		vRejected(func() { b.Pkg("no/such/pkg").ExportFunc("f").Apply(cb) }, "C13.names.unknown-package")
+	case 2:
+		vRejected(func() { b.ExportFunc("noSuchFunc").As(cb).Return(1, nil) }, "C13.names.unknown-func-as")
+	case 3:
+		vRejected(func() { b.ExportStruct("*noSuchType").Method("m").Apply(func(t *vC13T, i int) int { return 0 }) }, "C13.names.unknown-struct-method")
+	case 4:
+		vRejected(func() { b.Struct(&vC13T{}).ExportMethod("noSuchMethod").Apply(func(t *vC13T, i int) int { return 0 }) }, "C13.names.unknown-unexported-method")
+	case 5:
+		vRejected(func() { b.UnExportedVar("no/such/pkg.v").Set(1) }, "C13.names.unknown-variable")
+	}
+	verifReached("C13.names")
+}
+
 // VC_C13_cause_chain: errors carry a cause chain that can be walked to the typed cause.
 func VC_C13_cause_chain() {
 	root := erro.NewArgsNotMatchError(vC13F, 1, 2)
